@@ -26,6 +26,15 @@ C10 (AST-level round trips) ops.
                                          grammar (around a genuine key) must be accepted; other spellings are not judged
   J keymulti <parser> <hex text> <accepted|rejected>            SPEC Spec/KeyGrammar.lean: a multipath step that repeats an
                                          alternative must be REFUSED (BIP-389; regression for 3f2894f8), distinct ones accepted
+  J textforms <ctx> <hex display> <hex Terminal display> <hex debug> <hex Terminal debug>
+                                         the other text forms of the same miniscript (id atoms): `Display for Terminal` is the
+                                         same text; `Debug` (types in `[…]`, atoms quoted, lock times in their Rust structs) with the
+                                         annotations removed and lock arguments blanked is the Display text likewise blanked
+  J alttext <kind> <hex {} text> <hex {:#} text>   the alternate form of a miniscript, Terminal, policy or key is the same text
+                                         (hardened markers ' and h identified); a lock time used to print as `block-height N`
+  J wrongarm <parser> <hex descriptor text> <accepted|rejected>
+                                         the per-wrapper parsers: a text whose root name belongs to another wrapper must be refused
+                                         (`Bare::from_str` excepted: every other text is a candidate bare miniscript)
   J numarg <position> <hex N> <accepted:v | rejected>           MODEL `Expr.parseNum` + the range of the position
                                          (after/older 1..2^31-1, thresh3/multi3 1..3, semthresh4 2..3, weight 1..2^32-1)
 -/
@@ -166,6 +175,47 @@ def parseDescW (s : String) : Option DescDisplay.Desc :=
       | _ => none
   | _ => none
 
+/-! ### text forms -/
+
+/-- drop every `[…]` block and every `"` -/
+def stripAnn : List Char → Bool → List Char
+  | [], _ => []
+  | c :: cs, inB =>
+    if inB then (if c == ']' then stripAnn cs false else stripAnn cs true)
+    else if c == '[' then stripAnn cs true
+    else if c == '"' then stripAnn cs false
+    else c :: stripAnn cs false
+
+def startsWithL (p s : List Char) : Bool := s.take p.length == p
+
+/-- skip to the parenthesis that closes the one already open (`depth` = open count) -/
+def skipClose : List Char → Nat → List Char
+  | [], _ => []
+  | c :: cs, d =>
+    if c == '(' then skipClose cs (d + 1)
+    else if c == ')' then (if d ≤ 1 then cs else skipClose cs (d - 1))
+    else skipClose cs d
+
+/-- `after(…)` / `older(…)` → `after()` / `older()` (fuel = length) -/
+def blankLocks : Nat → List Char → List Char
+  | 0, s => s
+  | _, [] => []
+  | fuel + 1, c :: cs =>
+    let s := c :: cs
+    if startsWithL "after(".toList s then "after()".toList ++ blankLocks fuel (skipClose (s.drop 6) 1)
+    else if startsWithL "older(".toList s then "older()".toList ++ blankLocks fuel (skipClose (s.drop 6) 1)
+    else c :: blankLocks fuel cs
+
+def debugMatches (display debug : String) : Bool :=
+  let d := blankLocks display.length display.toList
+  let g := stripAnn debug.toList false
+  blankLocks g.length g == d
+
+/-- the wrapper a descriptor text belongs to, by its root name -/
+def armOf (s : String) : String :=
+  let name := String.ofList (s.toList.takeWhile (· != '('))
+  if name == "pkh" || name == "wpkh" || name == "sh" || name == "wsh" || name == "tr" then name else "bare"
+
 /-- the positions the harness probes: `thresh3`/`multi3`/`cthresh3` have 3 children, `semthresh4` is a
 semantic threshold with 4 children (1-of-n and n-of-n are refused there) -/
 def parseNumPos : String → Option NumPos
@@ -235,6 +285,23 @@ def opsDisplay (t : Tables) (kind op : String) (args : List String) : Option Str
     else if Spec.KeyGrammar.valid secret s.toList then
       pure (if verdict == "accepted" then "ok" else "bad:valid-key-expression-" ++ verdict)
     else pure "bad-case:neither-valid-nor-a-repeated-alternative"
+  | "J", "textforms", [_, d, t, g, tg] => do
+    let d ← Text.unhex d; let t ← Text.unhex t; let g ← Text.unhex g; let tg ← Text.unhex tg
+    if t != d then pure "bad:Terminal-display-differs" else
+    if tg != g then pure "bad:Terminal-debug-differs" else
+    pure (if debugMatches d g then "ok" else "bad:debug-skeleton-differs")
+  | "J", "alttext", [_, d, a] => do
+    -- `{:#}` (alternate flag) of a miniscript / policy / key is the same text as `{}`, up to the spelling of the
+    -- hardened marker in key paths (`'` in `{}`, `h` in `{:#}`: the same step); regression for c7695b28
+    let d ← Text.unhex d; let a ← Text.unhex a
+    let norm := fun (s : String) => String.ofList (s.toList.map fun c => if c == '\'' then 'h' else c)
+    pure (if norm a == norm d then "ok" else "bad:alternate-form-differs")
+  | "J", "wrongarm", [parser, h, verdict] => do
+    let s ← Text.unhex h
+    let arm := armOf s
+    if parser == arm then pure (if verdict == "accepted" then "ok" else "bad:own-arm-" ++ verdict)
+    else if parser == "bare" then pure "ok"
+    else pure (if verdict == "rejected" then "ok" else "bad:text-of-" ++ arm ++ "-accepted-by-" ++ parser)
   | "J", "numarg", [pos, h, verdict] => do
     let n ← Text.unhex h
     let expected := match numargSpec pos n.toList with
